@@ -243,6 +243,18 @@ func genLeafRuns(r *rng, kinds []LeafCfg, budgets []int, fullMasks bool, emit fu
 							cnt++
 							if (cnt/3)%3 == 0 { // (not cnt%3: that would tie the variant to the post kind)
 								emit(asFlowStep(cfg, scr, t))
+							} else if cnt%7 == 3 && cfg.PrepS != "absent" {
+								// the same node object is run a second time, on a fresh store, with a different script
+								// (nothing of the first run may survive in the node): often "all attempts fail, the
+								// fallback supplies the value" after a first run whose exec succeeded
+								sc := singleRun(cfg, scr)
+								m2 := uint(0)
+								if r.chance(40) {
+									m2 = uint(r.next()) & ((1 << uint(att)) - 1)
+								}
+								sc.LeafScripts = append(sc.LeafScripts, t.leafScript(0, 1, true, m2, att, r.chance(70), postStr(t, r.intn(3), "b")))
+								sc.Steps = append(sc.Steps, Step{Run: ip(0)})
+								emit(sc)
 							} else {
 								emit(singleRun(cfg, scr))
 							}
